@@ -41,7 +41,34 @@ def jobs(tier):
         use = {'mkImpl': ('mkOr',), 'mkEq': ('mkAnd', 'mkBinaryEq')}.get(nm, ())      # callees replaced by their contracts (each is proved by its own job)
         cn = {'mkOr': 'Logic__mkOr__vec_PTRef_RR', 'mkAnd': 'Logic__mkAnd__vec_PTRef_RR', 'mkBinaryEq': 'opensmt::Logic::mkBinaryEq'}
         J.append(bjob(nm, root, h, proves=PROVES[nm], defines=tuple(d for d in defs if not (use and d in ('C14_SORTCALL', 'C14_MAPS', 'C14_SORTS'))) + tuple('C14_USE_' + u for u in use) + (('C14_NO_SYMREF',) if nm == 'mkEq' else ()), extra_stubs=tuple(cn[u] for u in use), weight=(30 if nm in ('mkAnd', 'mkOr') else 1)))
+    # neg_job() (ArithLogic::mkNeg over an arena with integer denotations, contracts/C14/arith.h) is NOT registered: it does not finish within 30 min
     return J + C27.jobs_fold(4)       # constant folding of div / mod against Euclidean semantics (shared with C27, bounded: scaled width)
+ARITH_STUBS = ('opensmt::Logic::mkFun', 'opensmt::ArithLogic::mkConst', 'opensmt::ArithLogic::isNeg', 'opensmt::Logic::getSymRef', 'opensmt::Logic::isConstant', 'opensmt::ArithLogic::getNumConst', 'opensmt::Logic::getSortRef',
+               'opensmt::ArithLogic::isPlus', 'opensmt::ArithLogic::isTimes', 'opensmt::Logic::getPterm', 'opensmt::ArithLogic::getMinusOneForSort', 'opensmt::ArithLogic::isNumVarLike', 'opensmt::ArithLogic::getTimesForSort',
+               'opensmt::Pterm::size', 'opensmt::Pterm::operator[]', 'opensmt::Pterm::begin', 'opensmt::Pterm::end', 'opensmt::ArithLogic::yieldsSortInt', 'opensmt::ArithLogic::yieldsSortReal', 'opensmt::ArithLogic::getTerm_IntOne',
+               'opensmt::ArithLogic::getTerm_RealOne', 'vec_PTRef__capacity__int')
+H_NEG = '''void harness(void) {
+  h_init();
+  t_int c = nondet_int(), dx = nondet_int(), dy = nondet_int(), du = nondet_int();
+  __CPROVER_assume(c >= -3 && c <= 3 && dx >= -3 && dx <= 3 && dy >= -3 && dy <= 3 && du >= -3 && du <= 3);
+  struct PTRef k = h_const(c), x = h_leaf(K_VAR, dx), y = h_leaf(K_VAR, dy), u = h_leaf(K_UF, du);
+  struct PTRef cx = (c != 0 && c != 1) ? (nondet_bool() ? h_app(K_TIMES, 2, k.x, x.x, 0) : h_app(K_TIMES, 2, x.x, k.x, 0)) : x;     /* c*x in either argument order (0*x and 1*x are not normal forms) */
+  struct PTRef my = h_app(K_TIMES, 2, T_MINUS1, y.x, 0);
+  struct PTRef s2 = h_app(K_PLUS, 2, cx.x, my.x, 0), s3 = h_app(K_PLUS, 3, x.x, u.x, k.x);
+  t_u32 pool = (t_u32)g_nt;
+  struct PTRef t; t.x = nondet_uchar(); __CPROVER_assume(t.x < pool);
+  struct PTRef r = ArithLogic__mkNeg((struct ArithLogic *)0, t);
+  __CPROVER_assert(!__osmt_thrown, "every term shape of the normal form is negated");
+  __CPROVER_assert(r.x < (t_u32)g_nt, "the result is a term of the store");
+  __CPROVER_assert(den_of(r.x) == -den_of(t.x), "mkNeg(t) denotes -t");
+  OSMT_REACH("return");
+}
+'''
+def neg_job():
+    import checks.C15 as C15
+    return Job('mkNeg.R', 'src/logics/ArithLogic.cc', 'opensmt::ArithLogic::mkNeg', tier='R', header='contracts/C14/arith.h', harness=H_NEG, enforce=False, aux_tu=C15.TU, pre_includes=('stubs/gmp_types.h', 'stubs/std_types.h'),
+               stubs=C15.POOL_STUBS + ARITH_STUBS, opaque=('opensmt::ArithLogic', 'opensmt::Logic', 'opensmt::Pterm'), unwindset=('Logic__mkFun.2:18', 'h_const.0:18'), default_unwind=5, min_obligations=5, object_bits=12, timeout=1800, weight=20,
+               expected_wrap=C15.WRAP, proves='mkNeg(t) is equivalent to (- t) for constants, variables, constant*variable and sums')
 def info(tier, results):
     return {'level': 'proof', 'trusted_base': ['clang 14 AST', 'osmt2c lowering', 'CBMC 6.11'],
             'assumptions': ['Logic::mkFun returns the hash-consed application term, whose denotation is the operator applied to the denotations of its arguments (stub contract; it is the one place a term is really built)',
